@@ -11,7 +11,7 @@ from qrv.build import r3
 
 LEVEL = "exploration"
 RULE = ("one case per axis length N: all N in 2..64 (thorough 2..160) plus random N up to 1024 (thorough 4096); "
-        "inside a case: axis type {complete, upper-half} x start {0 or centred, arbitrary} x random step x direction "
+        "inside a case: axis type {complete, upper-half} x start {0 or centred, arbitrary, a few steps on a scale 1e-12..1e8 of the variable} x random step x direction "
         "{time-first, frequency-first} for the axis clauses and data kind {complex random, real, hermitian, delta, windowed} "
         "for the transform clauses. distinct = (clause family, N, axis type, start class, data kind); non-trivial iff N >= 3 "
         "and the data have at least two non-zero samples (delta: position not at index 0).")
